@@ -557,7 +557,7 @@ func checkC13(c *Ctx) {
 				if len(lf.Path) == 1 && c.R.Chance(1, 8) {
 					m[lf.Path[0]] = map[string]interface{}{"k": 1, "n": map[string]interface{}{"z": 2.5}}
 				}
-				if lf.T == NCmp && strings.HasSuffix(lf.Lit.Kind, "list") && c.R.Chance(1, 3) {
+				if lf.T == NCmp && (strings.HasSuffix(lf.Lit.Kind, "list") || lf.Lit.Kind == "str") && c.R.Chance(1, 3) {
 					// a typed slice of many elements in no particular order where a list literal is compared: a set
 					// operation that sorts or de-duplicates in place would reorder the caller's slice
 					var v interface{}
@@ -579,6 +579,12 @@ func checkC13(c *Ctx) {
 						x := make([]string, k)
 						for j := range x {
 							x[j] = fmt.Sprintf("s%03d", (j*7919+907)%1000)
+							if j%5 == 1 {
+								x[j] = "" // blank entries between the others: what an in-place filter would compact
+							}
+						}
+						if lf.Lit.Kind == "str" && len(lf.Lit.Text) > 2 {
+							x[k-1] = lf.Lit.Text[1 : len(lf.Lit.Text)-1]
 						}
 						v = x
 					}
